@@ -514,3 +514,35 @@ impl Server {
         }
     }
 }
+
+#[cfg(mainline_verif)]
+impl Server {
+    pub fn verif_snapshot(&self) -> crate::verif::ServerSnapshot {
+        crate::verif::ServerSnapshot {
+            tokens: self.tokens.verif_snapshot(),
+            peers: self.peers.verif_snapshot(),
+            peers_cap: self.peers.verif_caps(),
+            signed_peers: self.signed_peers.verif_snapshot(),
+            signed_peers_cap: self.signed_peers.verif_caps(),
+            immutable: self
+                .immutable_values
+                .iter()
+                .map(|(target, value)| (*target, value.to_vec()))
+                .collect(),
+            immutable_cap: self.immutable_values.cap().get(),
+            mutable: self
+                .mutable_values
+                .iter()
+                .map(|(target, item)| crate::verif::MutableSnapshot {
+                    target: *target,
+                    key: *item.key(),
+                    seq: item.seq(),
+                    value: item.value().to_vec(),
+                    signature: *item.signature(),
+                    salt: item.salt().map(|salt| salt.to_vec()),
+                })
+                .collect(),
+            mutable_cap: self.mutable_values.cap().get(),
+        }
+    }
+}
